@@ -309,6 +309,7 @@ def check_combined(ck, tu):
             bad = None
             BASE = 1000
             npts = 0
+            tails = []
             for S in range(0, 5):
                 for T in range(max(S, 1), 7):
                     for O in [-1] + list(range(0, T + 1)):
@@ -329,6 +330,13 @@ def check_combined(ck, tu):
                                     return T
                                 if nm == "accumulate":
                                     return T
+                                if nm == "merge_advance" and len(kids(e)) >= 4:
+                                    idxs = []
+                                    for a_ in (kids(e)[0], kids(e)[2]):
+                                        f_ = match.field_of(a_)
+                                        ip_ = match.index_parts(f_[0]) if f_ else None
+                                        idxs.append(sk.ev(ip_[1]) if ip_ and ref_of(ip_[0]) == fn.params[0]["did"] else None)
+                                    tails.append((m, tuple(idxs), e))
                                 if e["id"] in ung_ids or e["id"] in gua_ids:
                                     t_, n_ = sk.ev(target_arg(e)), sk.ev(size_arg(e))
                                     if not isinstance(t_, int) or not isinstance(n_, int):
@@ -366,7 +374,20 @@ def check_combined(ck, tu):
                 ck.ok("PHASE-LENGTH-SUM", where, "%d points (size, total, overhang, min_seq): unguarded min(size, total - overhang) at target, guarded rest behind it, "
                       "target + size returned" % npts)
             if name == "multiway_merge_3_combined":
-                check_tail_order(ck, fn, gua)
+                wrong = None
+                for m_, idxs, node in tails:
+                    others = tuple(i for i in (0, 1, 2) if i != m_)
+                    if idxs != others and wrong is None:
+                        wrong = (m_, idxs, others, node)
+                if not tails:
+                    raise dtable.Undecidable("%s: the two-way tail merge was never reached" % fn.loc)
+                if wrong:
+                    m_, idxs, others, node = wrong
+                    ck.violation("TAIL-ORDER", fn.qname, "case=%d" % m_,
+                                 "when sequence %d is exhausted first the tail must merge sequences %d and %d in this order (ties go to the first range): got %s"
+                                 % (m_, others[0], others[1], list(idxs)), fn.nloc(node))
+                else:
+                    ck.ok("TAIL-ORDER", fn.qname, "cases 0,1,2 merge the two remaining sequences in increasing index order")
             if name == "multiway_merge_4_combined":
                 check_one_missing(ck, fn)
 
@@ -424,6 +445,8 @@ def check_one_missing(ck, fn):
                 pos["insert-value"] = ref_of(p[1]) if p else None
     if mv is not None and pos.get("erase") == mv and pos.get("insert") == mv and pos.get("insert-value") == mv:
         ck.ok("TAIL-ORDER", fn.qname, "exhausted sequence min_seq is removed and re-inserted at the same index")
+    elif mv is None or "erase" not in pos or "insert" not in pos or None in (pos.get("erase"), pos.get("insert"), pos.get("insert-value")):
+        raise dtable.Undecidable("%s: how the exhausted sequence is left out and put back is not understood" % fn.loc)
     else:
         ck.violation("TAIL-ORDER", fn.qname, "one-missing", "the sequence removed before the guarded phase is not re-inserted at its own index", fn.loc)
 
